@@ -21,3 +21,5 @@ func TestC02(t *testing.T) { runProp(t, "C02", drawC02) }
 func TestC14(t *testing.T) { runProp(t, "C14", drawC14) }
 
 func TestC15(t *testing.T) { runProp(t, "C15", drawC15) }
+
+func TestC17(t *testing.T) { runProp(t, "C17", drawC17) }
